@@ -32,12 +32,20 @@
   Section 9: shared by reference but never written (`tuple_and_atom_immutable`,
   `defs_unchanged_shared_readonly`, what a `Pipeline` object holds).
 
-  Not claimed here (model limits): interleavings below operation granularity, module-level state
-  outside definitions/config (step/parser/backoff caches hold code objects, not data); paths do not
-  lead through the attributes of opaque objects.
+  Section 11: where the definitions come from (`PypyrModel/LoadHist.lean`): a loader with hidden state,
+  histories of cache look-ups / clears / direct loads; under the ASSUMPTION `Loader.TextOnly` ("the loader
+  is a function of the file text alone", checked on the real loaders by the harness stream `loads`)
+  `cached_is_fresh_load`, `load_order_independent`, `loaded_arena_any_order`, `rerun_after_any_load_order`;
+  `shared_parser_counterexample` = one parser object kept between loads.
+
+  Not claimed here (model limits): interleavings below operation granularity; module-level state
+  outside definitions/config enters only through `Loader`'s hidden state (the yaml library itself is not
+  modelled: `TextOnly` is an assumption the harness tests); paths do not lead through the attributes of
+  opaque objects.
 -/
 import Props.Lemmas.C12_Read
 import Props.Lemmas.C12_Frozen
+import PypyrModel.LoadHist
 
 namespace Pypyr.C12
 open Pypyr.RunHeap
@@ -808,5 +816,144 @@ theorem partial_copy_counterexample :
     deepVal 5 full (root 2) = deepVal 5 (exec (solo 1 (cfgKeepOps [])) st0).heap (root 1) ∧
     (∀ o ∈ cfgKeepOps [], Op.fixed o = true) := by
   decide +kernel
+
+/-! ### 11. where the definitions come from: the loader as a function of the text alone
+
+    `Heap.init defs cfg` takes the loaders' output as given. `PypyrModel/LoadHist.lean` models how that list comes
+    about in a process: a history of cache look-ups (`Req.get`), cache clears and direct loader calls over a
+    loader that may carry hidden state from call to call. Under the ASSUMPTION `Loader.TextOnly` (the harness
+    checks it on the real loaders, stream `loads`) the definition arena is the same after every history, so
+    every theorem above holds whatever was loaded before, in whatever order. `shared_parser_counterexample`: one
+    parser object kept between loads, remembering the `%YAML` version of the last directive, breaks the
+    assumption and with it "cached definition = what the loader produces" and order independence. -/
+
+/-- Everything the cache holds is the pristine-process load of its source. -/
+def CacheFresh {σ τ : Type} (L : Loader σ τ) (files : Nat → τ) (c : List (Nat × Block)) : Prop :=
+  ∀ p b, cacheGet? c p = some b → b = L.fresh (files p)
+
+theorem cacheFresh_req {σ τ : Type} {L : Loader σ τ} (hL : L.TextOnly) (files : Nat → τ) (x : LoadSt σ)
+    (hx : CacheFresh L files x.cache) (r : Req) : CacheFresh L files (x.req L files r).cache := by
+  cases r with
+  | get p =>
+    simp only [LoadSt.req]
+    split
+    · exact hx
+    · intro q b hq
+      simp only [cacheGet?] at hq
+      split at hq
+      · rename_i hpq
+        cases hq
+        subst hpq
+        exact hL _ _
+      · exact hx q b hq
+  | clear =>
+    intro p b h
+    simp [LoadSt.req, cacheGet?] at h
+  | bypass p => exact hx
+
+theorem cacheFresh_run {σ τ : Type} {L : Loader σ τ} (hL : L.TextOnly) (files : Nat → τ) (h : List Req) :
+    ∀ x : LoadSt σ, CacheFresh L files x.cache → CacheFresh L files (LoadSt.run L files x h).cache := by
+  induction h with
+  | nil => intro x hx; exact hx
+  | cons r rest ih => intro x hx; exact ih _ (cacheFresh_req hL files x hx r)
+
+/-- "After any run every cached definition is deep-equal to what its loader produced", with the loader's own
+    history in the picture: after EVERY history of look-ups, clears and direct loads, what the cache holds for a
+    source is what the loader gives for that source alone in a pristine process. -/
+theorem cached_is_fresh_load {σ τ : Type} {L : Loader σ τ} (hL : L.TextOnly) (files : Nat → τ) (h : List Req)
+    {p : Nat} {b : Block} (hc : cacheGet? (loadHist L files h).cache p = some b) : b = L.fresh (files p) :=
+  cacheFresh_run hL files h ⟨L.init, []⟩ (by intro p b hp; simp [cacheGet?] at hp) p b hc
+
+/-- The definition loaded after history h is the definition loaded first (the loader called past the cache). -/
+theorem load_after_history_is_first_load {σ τ : Type} {L : Loader σ τ} (hL : L.TextOnly) (files : Nat → τ)
+    (h : List Req) (p : Nat) : (L.load (loadHist L files h).st (files p)).1 = L.fresh (files p) := hL _ _
+
+/-- Two processes that loaded in different orders hold the same definition for a source both have loaded. -/
+theorem load_order_independent {σ τ : Type} {L : Loader σ τ} (hL : L.TextOnly) (files : Nat → τ) (h1 h2 : List Req)
+    {p : Nat} {b1 b2 : Block} (c1 : cacheGet? (loadHist L files h1).cache p = some b1)
+    (c2 : cacheGet? (loadHist L files h2).cache p = some b2) : b1 = b2 :=
+  (cached_is_fresh_load hL files h1 c1).trans (cached_is_fresh_load hL files h2 c2).symm
+
+/-- The definition arena after any history that has every source in the cache is the arena of pristine loads. -/
+theorem loaded_arena_any_order {σ τ : Type} {L : Loader σ τ} (hL : L.TextOnly) (files : Nat → τ) (n : Nat)
+    (h : List Req) (hall : ∀ p < n, (cacheGet? (loadHist L files h).cache p).isSome = true) :
+    defsAfter L files n h = defsFresh L files n := by
+  unfold defsAfter defsFresh
+  apply List.map_congr_left
+  intro p hp
+  have hp' : p < n := List.mem_range.mp hp
+  have hs := hall p hp'
+  cases hc : cacheGet? (loadHist L files h).cache p with
+  | none => rw [hc] at hs; cases hs
+  | some b => rw [Option.getD_some]; exact cached_is_fresh_load hL files h hc
+
+/-- … hence the loader state every theorem of sections 1-10 starts from does not depend on the order of loads. -/
+theorem loader_state_any_order {σ τ : Type} {L : Loader σ τ} (hL : L.TextOnly) (files : Nat → τ) (n : Nat)
+    (h1 h2 : List Req) (a1 : ∀ p < n, (cacheGet? (loadHist L files h1).cache p).isSome = true)
+    (a2 : ∀ p < n, (cacheGet? (loadHist L files h2).cache p).isSome = true) (cfg : Block) :
+    State.loaded (defsAfter L files n h1) cfg = State.loaded (defsAfter L files n h2) cfg := by
+  rw [loaded_arena_any_order hL files n h1 a1, loaded_arena_any_order hL files n h2 a2]
+
+/-- Re-running "in a different order relative to other pipelines", the loads included: run r1 executing `ops`
+    alone in a process that loaded its sources by history h1 and run r2 executing `ops` after any schedule `s`
+    of other runs in a process that loaded by history h2 end with the same context and outcome. -/
+theorem rerun_after_any_load_order {σ τ : Type} {L : Loader σ τ} (hL : L.TextOnly) (files : Nat → τ) (n : Nat)
+    (h1 h2 : List Req) (a1 : ∀ p < n, (cacheGet? (loadHist L files h1).cache p).isSome = true)
+    (a2 : ∀ p < n, (cacheGet? (loadHist L files h2).cache p).isSome = true)
+    (cfg : Block) (hd : ∀ b ∈ defsFresh L files n, PlainBlock b) (hc : PlainBlock cfg)
+    {s : Sched} (hs : SchedFixed s) {r1 r2 : Nat} {ops : List Op} (hops : ∀ o ∈ ops, o.fixed = true)
+    (p1 : proj r1 s = solo r1 ops) (p2 : proj r2 s = []) (k : Nat) :
+    deepVal k (exec (s ++ solo r2 ops) (State.loaded (defsAfter L files n h2) cfg)).heap (root r2) =
+      deepVal k (exec (solo r1 ops) (State.loaded (defsAfter L files n h1) cfg)).heap (root r1) ∧
+    (exec (s ++ solo r2 ops) (State.loaded (defsAfter L files n h2) cfg)).dead r2 =
+      (exec (solo r1 ops) (State.loaded (defsAfter L files n h1) cfg)).dead r1 := by
+  rw [loaded_arena_any_order hL files n h1 a1, loaded_arena_any_order hL files n h2 a2]
+  exact rerun_after_history _ cfg hd hc hs hops p1 p2 k
+
+/-- `get_pipeline_yaml` as it is (a parser object per call) satisfies the assumption in the text model. -/
+theorem perCallParser_textOnly : perCallParser.TextOnly := fun _ _ => rfl
+
+/-- sources of the example: 0 = a pipeline that starts with `%YAML 1.1`, 1 = one without a directive whose plain
+    scalars the two versions read differently, 2 = a pipeline that starts with `%YAML 1.2`. -/
+def exTexts : Nat → YText
+  | 0 => ⟨some .v11, ["done"]⟩
+  | 1 => ⟨none, ["se", "no", "1:30", "0755"]⟩
+  | _ => ⟨some .v12, ["x"]⟩
+
+example : cacheGet? (loadHist perCallParser exTexts [.get 0, .get 1, .clear, .get 1, .bypass 0]).cache 1 =
+    some (perCallParser.fresh (exTexts 1)) := by decide +kernel
+
+example : ∀ p < 3, (cacheGet? (loadHist perCallParser exTexts [.get 2, .get 0, .get 1]).cache p).isSome = true := by
+  decide +kernel
+
+/-- One parser object for all loads: the assumption fails, and so does everything that rests on it. -/
+theorem shared_parser_counterexample :
+    ¬ sharedParser.TextOnly ∧
+    -- report loaded after legacy is not report loaded alone
+    cacheGet? (loadHist sharedParser exTexts [.get 0, .get 1]).cache 1 ≠ some (sharedParser.fresh (exTexts 1)) ∧
+    cacheGet? (loadHist sharedParser exTexts [.get 0, .get 1]).cache 1 ≠
+      cacheGet? (loadHist sharedParser exTexts [.get 1, .get 0]).cache 1 ∧
+    -- … `no` has become False, `1:30` 90, `0755` 493
+    cacheGet? (loadHist sharedParser exTexts [.get 0, .get 1]).cache 1 =
+      some [.list [1, 2, 3, 4], .leaf (.str "se"), .leaf (.bool false), .leaf (.int 90), .leaf (.int 493)] ∧
+    sharedParser.fresh (exTexts 1) =
+      [.list [1, 2, 3, 4], .leaf (.str "se"), .leaf (.str "no"), .leaf (.str "1:30"), .leaf (.int 755)] ∧
+    -- already cached before legacy loads: nothing shows (why the order report, legacy, report is clean) …
+    cacheGet? (loadHist sharedParser exTexts [.get 1, .get 0, .get 1]).cache 1 = some (sharedParser.fresh (exTexts 1)) ∧
+    -- … until the caches are cleared, or the loader is called past the cache
+    cacheGet? (loadHist sharedParser exTexts [.get 1, .get 0, .clear, .get 1]).cache 1 ≠
+      some (sharedParser.fresh (exTexts 1)) ∧
+    (sharedParser.load (loadHist sharedParser exTexts [.get 1, .get 0]).st (exTexts 1)).1 ≠ sharedParser.fresh (exTexts 1) ∧
+    -- a `%YAML 1.2` document in between flips the parser back: the result depends on the whole history
+    cacheGet? (loadHist sharedParser exTexts [.get 0, .get 2, .get 1]).cache 1 = some (sharedParser.fresh (exTexts 1)) ∧
+    -- the arenas of the two orders differ
+    defsAfter sharedParser exTexts 2 [.get 0, .get 1] ≠ defsAfter sharedParser exTexts 2 [.get 1, .get 0] ∧
+    -- the per-call parser on the same histories: equal
+    defsAfter perCallParser exTexts 2 [.get 0, .get 1] = defsAfter perCallParser exTexts 2 [.get 1, .get 0] := by
+  refine ⟨fun h => ?_, ?_⟩
+  · have := h .v11 (exTexts 1)
+    revert this
+    decide +kernel
+  · decide +kernel
 
 end Pypyr.C12
